@@ -762,14 +762,20 @@ def _norm(tr):
     return json.loads(json.dumps(tr))
 
 
-def _known_plain(tabs, ops, i):
-    """is the deviation at step i explained by an open finding?"""
+def _known_plain(tabs, ops, outs, i, f):
+    """is the deviation f at step i one of the symptoms of an open finding?"""
     op = ops[i]
+    seq = f['what'].startswith('event/write sequence')
     if op[0] == 'assign' and not keeps_key(tabs[op[1]], op[3], op[4]):
-        return 'assign_listener_changes_keyset'
+        # the dict is handed to set() and _SO_setValue carries on: second UPDATE + second after-event, or KeyError
+        if seq or (f['what'].startswith('an operation whose final arguments are valid raised') and f['actual'] == ['exn', 'keyerror']):
+            return 'assign_listener_changes_keyset'
     if op[0] in ('assign', 'set'):
-        for prev in ops[:i]:
-            if prev[0] == 'assign' and prev[1] == op[1] and prev[2] == op[2] and not keeps_key(tabs[op[1]], prev[3], prev[4]):
+        # the receivers are not consulted any more on an instance whose delegated set() raised earlier:
+        # no before-event, the caller's arguments are validated and stored instead of the rewritten ones
+        for j, prev in enumerate(ops[:i]):
+            if prev[0] == 'assign' and prev[1] == op[1] and prev[2] == op[2] and isinstance(outs[j], list) and outs[j][0] == 'exn' \
+                    and not keeps_key(tabs[op[1]], prev[3], prev[4]):
                 return 'suppress_flag_left_set'
     return None
 
@@ -813,7 +819,7 @@ def oracle_plain(c, o):
         if f:
             f['step'] = i
             f['op'] = op
-            known = _known_plain(tabs, c['ops'], i)
+            known = _known_plain(tabs, c['ops'], [x['out'] for x in o['steps']], i, f)
             if known is None:
                 return f
             if first_known is None:
